@@ -23,7 +23,9 @@
  *     -5: a descriptor closed during setup  -6: max_fd-1 (never opened)
  *   slot 100+t: the descriptor thread t last obtained from ACCEPT/CONNECT.
  */
+#ifndef _GNU_SOURCE
 #define _GNU_SOURCE
+#endif
 #include <dlfcn.h>
 #include <errno.h>
 #include <fcntl.h>
@@ -54,7 +56,7 @@ typedef void (*h_rec_hook_t)(int code, int fd, long ret, int err, long extra);
 /* ------------------------------------------------------------------------ */
 static h_rec_hook_t hook;
 void h_rec_set_hook(h_rec_hook_t h) { hook = h; }
-#define NEXT(T, name) static T fn; if (!fn) fn = (T)dlsym(RTLD_NEXT, name)
+#define NEXT(T, name) static __typeof__(T) fn; if (!fn) fn = (__typeof__(T))dlsym(RTLD_NEXT, name)
 #define REPORT(code, fd, r, x) do { if (hook) { int e_ = errno; hook(code, fd, (long)(r), e_, (long)(x)); errno = e_; } } while (0)
 
 ssize_t read(int fd, void* b, size_t n) {
